@@ -58,6 +58,19 @@ CONTAINER_MUT = {'append', 'extend', 'insert', 'update', 'add', 'remove', 'clear
                  'pop', 'popitem', 'setdefault', 'discard', 'reverse'}
 
 
+def _derive(a: str) -> str:
+    """Root atom of something reached from ``a`` through an attribute / element / accessor."""
+    if a in ('fresh', 'unknown', 'global') or a.startswith(('g:', 'd:')):
+        return a
+    if a.startswith('sh:'):
+        return 'd:' + a[3:]        # a leaf handed out by a GraphModule built over a[3:]
+    return 'd:' + a
+
+
+def owner(a: str) -> str:
+    return a[2:] if a.startswith('d:') else a
+
+
 @dataclass
 class Effect:
     kind: str                 # setattr | setitem | inplace | update | struct | mode | forward
@@ -69,9 +82,14 @@ class Effect:
     chain: Tuple[str, ...] = ()
     value: Optional[Term] = None
     recv: Optional[Term] = None
+    arg_roots: Optional[list] = None
 
     def key(self):
         return (self.kind, self.roots, self.name, self.fn.qualname, self.lineno)
+
+    @property
+    def owners(self) -> Roots:
+        return frozenset(owner(a) for a in self.roots)
 
     def where(self) -> str:
         return f'{self.fn.module.relpath}:{self.lineno}'
@@ -125,16 +143,17 @@ class Effects:
                 if a.startswith('sh:'):
                     # direct attributes of a GraphModule over R: the graph and bookkeeping are
                     # fresh; anything else may be a shared leaf
-                    out.add('fresh' if t[2] in ('graph', 'meta', '_modules', 'code') else a[3:])
+                    out.add('fresh' if t[2] in ('graph', 'meta', '_modules', 'code')
+                            else _derive(a))
                 elif t[2] == 'graph' and a not in ('fresh', 'unknown', 'global') and \
                         not a.startswith('g:'):
-                    out.add('g:' + a)       # the fx graph owned by a (nodes, meta, users)
+                    out.add('g:' + owner(a))   # the fx graph owned by a (nodes, meta, users)
                 else:
-                    out.add(a)
+                    out.add(_derive(a))
             return frozenset(out)
         if k in ('sub', 'elem', 'starred', 'enter'):
             r = self.root(t[1], p, fn, depth + 1)
-            return frozenset(a[3:] if a.startswith('sh:') else a for a in r)
+            return frozenset(_derive(a) for a in r)
         if k in ('tuple', 'list', 'set'):
             out = set()
             for x in t[1]:
@@ -186,7 +205,7 @@ class Effects:
             out = set()
             for a in t[2]:
                 out |= self.root(a, p, fn, depth + 1)
-            return frozenset(a[3:] if a.startswith('sh:') else a for a in (out or {'fresh'}))
+            return frozenset(_derive(a) for a in (out or {'fresh'}))
         if c is not None and (c.startswith('torch.') or c.startswith('math.') or
                               c.startswith('numpy.') or c.startswith('networkx.') or
                               c.startswith('operator.') or c.startswith('itertools.')):
@@ -197,7 +216,7 @@ class Effects:
             recv, name = mc[0], mc[1]
             r = self.root(recv, p, fn, depth + 1)
             if name in ACCESSORS:
-                return frozenset(a[3:] if a.startswith('sh:') else a for a in r)
+                return frozenset(_derive(a) for a in r)
             if name in COPYING or name.startswith('__'):
                 return FRESH
             if name == 'get_modified_vars':
@@ -207,7 +226,7 @@ class Effects:
             out = set(r)
             for a in t[2]:
                 out |= self.root(a, p, fn, depth + 1)
-            return frozenset(a[3:] if a.startswith('sh:') else a for a in out)
+            return frozenset(_derive(a) for a in out)
         if c in self.repo.functions:
             f = self.repo.functions[c]
             if f.name in ('shapes_dict', 'fx_to_nx_graph', 'get_graph_inputs',
@@ -480,44 +499,59 @@ class Effects:
 
     def _instantiate(self, callee_fn: FunctionInfo, kind: str, recv: Optional[Term], args: tuple,
                      kws: tuple, p: State, fn: FunctionInfo, ln: int, add):
-        self.resolved_calls += 1
-        params = callee_fn.params
-        bind: Dict[str, Roots] = {}
-        if kind in ('method', 'ctor') and params:
-            if kind == 'ctor':
-                self_roots = FRESH
-            else:
-                self_roots = self.root(recv, p, fn) if recv is not None else \
-                    frozenset({'unknown'})
-            pos = params[1:]
+        if kind == 'ctor':
+            self_roots = FRESH
+        elif kind == 'method':
+            self_roots = self.root(recv, p, fn) if recv is not None else frozenset({'unknown'})
         else:
             self_roots = FRESH
-            pos = params
+        pos_roots = [self.root(a[1] if a[0] == 'starred' else a, p, fn) for a in args]
+        kw_roots = {k: self.root(a, p, fn) for k, a in kws}
+        params = callee_fn.params
+        pos = params[1:] if kind in ('method', 'ctor') and params else params
+        # constant string / bool / None arguments select the callee's branches; function-valued
+        # arguments (lambdas, functions) are kept so that calls through them can be followed
+        cbind: Dict[str, Term] = {}
+        fbind: Dict[str, Tuple[Term, State, FunctionInfo]] = {}
+        for i, a in enumerate(args):
+            if i < len(pos):
+                if a[0] == 'const' and isinstance(a[1], (str, bool, type(None))):
+                    cbind[pos[i]] = a
+                if a[0] in ('lambda', 'localfn') or (a[0] == 'global' and
+                                                     a[1] in self.repo.functions):
+                    fbind[pos[i]] = (a, p, fn)
+        for k, a in kws:
+            if a[0] == 'const' and isinstance(a[1], (str, bool, type(None))):
+                cbind[k] = a
+            if a[0] in ('lambda', 'localfn') or (a[0] == 'global' and a[1] in self.repo.functions):
+                fbind[k] = (a, p, fn)
+        self._instantiate_roots(callee_fn, kind, self_roots, pos_roots, kw_roots, cbind, fbind,
+                                f'{fn.qualname.split("plinio.")[-1]}:{ln}', add)
+
+    def _instantiate_roots(self, callee_fn: FunctionInfo, kind: str, self_roots: Roots,
+                           pos_roots: List[Roots], kw_roots: Dict[str, Roots],
+                           cbind: Dict[str, Term], fbind, site: str, add):
+        self.resolved_calls += 1
+        params = callee_fn.params
+        pos = params[1:] if kind in ('method', 'ctor') and params else params
+        bind: Dict[str, Roots] = {}
         vararg = callee_fn.node.args.vararg.arg if callee_fn.node.args.vararg else None
         extra: Set[str] = set()
-        for i, a in enumerate(args):
-            ra = self.root(a[1] if a[0] == 'starred' else a, p, fn)
+        for i, ra in enumerate(pos_roots):
             if i < len(pos):
                 bind[pos[i]] = ra
             else:
                 extra |= ra
         if vararg:
             bind[vararg] = frozenset(extra or {'fresh'})
-        for k, a in kws:
-            bind[k] = self.root(a, p, fn)
-        # constant string / bool / None arguments select the callee's branches
-        cbind: Dict[str, Term] = {}
-        for i, a in enumerate(args):
-            if i < len(pos) and a[0] == 'const' and isinstance(a[1], (str, bool, type(None))):
-                cbind[pos[i]] = a
-        for k, a in kws:
-            if a[0] == 'const' and isinstance(a[1], (str, bool, type(None))):
-                cbind[k] = a
-        for e in self.summary(callee_fn, cbind):
+        bind.update(kw_roots)
+
+        def map_roots(rs: Roots, ekind: str) -> Roots:
             roots: Set[str] = set()
-            for a in e.roots:
+            for a in rs:
                 g = a.startswith('g:')
-                a0 = a[2:] if g else a
+                d = a.startswith('d:')
+                a0 = a[2:] if (g or d) else a
                 if a0 == 'self':
                     act = self_roots
                 elif a0.startswith('p:'):
@@ -526,18 +560,57 @@ class Effects:
                     act = frozenset({a0})
                 for x in act:
                     if g:
-                        # the graph of a GraphModule built in this activation is fresh
                         roots.add('fresh' if x.startswith('sh:') or x == 'fresh' else
                                   (x if x.startswith('g:') or x in ('unknown', 'global')
-                                   else 'g:' + x))
+                                   else 'g:' + owner(x)))
+                    elif d:
+                        roots.add(_derive(x))
                     else:
                         roots.add(x)
-            roots2 = frozenset('fresh' if (x.startswith('sh:') and e.kind in ('setattr', 'struct'))
-                               else (x[3:] if x.startswith('sh:') else x) for x in roots)
+            # a write performed *directly* on a GraphModule built in this activation (setattr,
+            # add_submodule, ...) stays in the fresh container; anything else reaches the owner
+            return frozenset('fresh' if x.startswith('sh:') and ekind in ('setattr', 'struct',
+                                                                          'update', 'setitem')
+                             else ('d:' + x[3:] if x.startswith('sh:') else x) for x in roots)
+        for e in self.summary(callee_fn, cbind):
+            if e.kind == 'callparam':
+                # a call through a function-valued parameter
+                arg_roots = [map_roots(r, 'arg') for r in e.arg_roots]
+                if e.name in fbind:
+                    self._follow_function_value(fbind[e.name], arg_roots, (site,) + e.chain, add)
+                else:
+                    add(Effect('callparam', map_roots(e.roots, 'arg'), e.name, e.detail, e.fn,
+                               e.lineno, (site,) + e.chain, None, None, arg_roots))
+                continue
+            roots2 = map_roots(e.roots, e.kind)
             if roots2 == FRESH or not roots2:
                 continue
-            add(Effect(e.kind, roots2, e.name, e.detail, e.fn, e.lineno,
-                       (f'{fn.qualname.split("plinio.")[-1]}:{ln}',) + e.chain, e.value, e.recv))
+            add(Effect(e.kind, roots2, e.name, e.detail, e.fn, e.lineno, (site,) + e.chain,
+                       e.value, e.recv))
+
+    def _follow_function_value(self, fb, arg_roots: List[Roots], chain, add):
+        ft, p, fn = fb
+        if ft[0] == 'global' and ft[1] in self.repo.functions:
+            g = self.repo.functions[ft[1]]
+            self._instantiate_roots(g, 'func', FRESH, arg_roots, {}, {}, {}, chain[0], add)
+            return
+        if ft[0] == 'lambda':
+            params, body = ft[1], ft[2]
+            if body[0] != 'call':
+                return
+            c = callee(body)
+            g = self.repo.functions.get(c) if c else None
+            if g is None or g.cls is not None:
+                return
+            pr: List[Roots] = []
+            cb: Dict[str, Term] = {}
+            for i, a in enumerate(body[2]):
+                if a[0] == 'bound' and a[1] in params:
+                    k = list(params).index(a[1])
+                    pr.append(arg_roots[k] if k < len(arg_roots) else frozenset({'unknown'}))
+                else:
+                    pr.append(self.root(a, p, fn))
+            self._instantiate_roots(g, 'func', FRESH, pr, {}, cb, {}, chain[0], add)
 
     def _call_effects(self, ev, p: State, fn: FunctionInfo, ln: int, add):
         t = ev.data[0]
@@ -597,6 +670,11 @@ class Effects:
                 is_module = ann is not None and ('Module' in ann) and 'Callable' not in ann
             if is_module and r_owner != FRESH:
                 add(Effect('forward', r_owner, '__call__', show(t)[:80], fn, ln))
+            if t[1][0] == 'param' and not is_module:
+                ar = [self.root(a, p, fn) for a in t[2]]
+                eff = Effect('callparam', frozenset({'p:' + t[1][1]}), t[1][1], show(t)[:80], fn,
+                             ln, (), None, None, ar)
+                add(eff)
             if t[1][0] in ('call', 'param'):
                 return
             if t[1][0] in ('elem', 'sub') and r_owner != FRESH and \
